@@ -22,6 +22,9 @@ with ctx.finding.  Signatures name the CAUSE where it is positively identified:
   `routes|interp-bug:<text>|<which>`           the interpreter's own `Compiler bug...Bug: <text>` abort
   `routes|exit|halt|stdout:interp-backtrace`   the call stack the interpreter prints on stdout at a halt (the
                                                signature part `exitclass` uses for the same defect)
+  `routes|c-nonfinite-float-constant|<which>`  only the C route fails to compile, its C compiler saying `nan`/`inf` undeclared
+  `routes|c-negative-zero-constant|<which>`    bit-pattern output differing only in the sign of a zero on the C route
+  `routes|float-bits|<which>|<what>|<classes>` any other difference in a generated float-constant program (floatgen family)
   `routes|c-signed-overflow-ub|<which>`        only the executable stands apart AND compiling the same generated
                                                C with `-fwrapv` added makes it agree with the interpreter: gcc has
                                                exploited signed overflow in the C of a wrapping FOAM integer builtin
@@ -96,7 +99,25 @@ def run_c_with(build, text, q, timeout, ccflag):
 
 
 def probe_cause(build, text, q, res, d, timeout):
-    """positively identify a cause by an experiment; returns a cause name or None"""
+    """positively identify a cause by an experiment or an unmistakable symptom; returns a cause name or None"""
+    crc = res["c"].get("rc")
+    if d["which"] == "interp+ao-interp!=c" and d["what"] == "stdout" and set(d["classes"].values()) == {"fail"} and \
+            isinstance(crc, int) and crc < 0 and "Program fault (" in res["interp"]["out"] and \
+            res["interp"]["out"].startswith(res["c"]["out"]):
+        # the program dies of a hardware fault on every route: the compiler process reports it on stdout, the
+        # executable is killed and loses its buffered output — the listed difference part `exitclass` models
+        return "exit|fault|stdout:compiler-message+stdout:fault"
+    if d["which"] == "interp+ao-interp!=c" and klass(res["c"]) == "nocompile" and klass(res["interp"]) != "nocompile" and \
+            re.search(r"error: [^\n]*\b(nan|inf)\b[^\n]* undeclared", res["c"].get("compile_out") or ""):
+        return "c-nonfinite-float-constant"       # a folded inf/NaN written into the C as the text `inf` / `nan`
+    if d["which"] == "interp+ao-interp!=c" and d["what"] == "stdout":
+        la, lc = res["interp"]["out"].split("\n"), res["c"]["out"].split("\n")
+        if len(la) == len(lc):
+            dl = [(x, y) for x, y in zip(la, lc) if x != y]
+            zero = re.compile(r"(.*) ([TF]) (-127|-1023) 0")
+            if dl and all(zero.fullmatch(x) and zero.fullmatch(y) and zero.fullmatch(x).group(1, 3) == zero.fullmatch(y).group(1, 3)
+                          for x, y in dl):
+                return "c-negative-zero-constant"     # bit patterns (float-bits programs) differing only in the sign of a zero
     if d["which"] == "interp+ao-interp!=c" and not d["bug"] and not d["only_backtrace"] and klass(res["c"]) != "nocompile":
         try:
             w = run_c_with(build, text, q, timeout, "-fwrapv")
@@ -206,8 +227,12 @@ def signature(name, q, d, origin="corpus", cause=None, small=None):
         return "routes|exit|halt|stdout:interp-backtrace"
     if d["bug"]:
         return "routes|interp-bug:%s|%s" % (d["bug"], d["which"])
+    if cause and cause.startswith("exit|"):
+        return "routes|" + cause
     if cause:
         return "routes|%s|%s" % (cause, d["which"])
+    if origin == "floatgen":
+        return "routes|float-bits|%s|%s|%s" % (d["which"], d["what"], "/".join(d["classes"][k] for k in ROUTES))
     if origin == "generated":
         h = hashlib.sha256((small or "").encode("utf-8", "replace")).hexdigest()[:8]
         return "routes|generated|%s|%s|%s|%s" % (d["which"], d["what"], "/".join(d["classes"][k] for k in ROUTES), h)
@@ -303,8 +328,100 @@ def commands(build, q):
                             "(fresh directory holding only prog.ao) %s -Ginterp prog.ao" % b]}
 
 
+# ------------------------------------------------------------------------------ float-constant family
+# Programs whose whole output is the BIT PATTERN of single and double floats (Machine's dissemble: sign, exponent,
+# fraction bytes — never the decimal float printer): literals and constant expressions that the optimiser folds
+# from -Q2 on and that the C route then has to write into the generated C as text.  The values need all 9 (resp. 17)
+# significant decimal digits, so one digit less in that text, a dropped sign of -0.0, a non-finite value written
+# as `inf`, or a C compiler flag that re-associates arithmetic shows up as a 1-ulp difference.
+FLOAT_HEAD = """#include "aldor"
+#include "aldorio"
+import from MachineInteger, SingleFloat, DoubleFloat, String;
+-- dissemble leaves the bytes above the fraction unset: keep the 3 (resp. 7) fraction bytes only
+bs(tag: String, x: SingleFloat): () == {
+	import from Machine;
+	(s, e, m) := dissemble(x::SFlo);
+	stdout << tag << " " << (s::Boolean) << " " << (e::MachineInteger) << " " << (((m pretend SInt)::MachineInteger) /\\ 16777215) << newline;
+}
+bd(tag: String, x: DoubleFloat): () == {
+	import from Machine;
+	(s, e, m1, m2) := dissemble(x::DFlo);
+	stdout << tag << " " << (s::Boolean) << " " << (e::MachineInteger) << " " << (((m1 pretend SInt)::MachineInteger) /\\ 72057594037927935) << newline;
+}
+"""
+
+def _f32(x):
+    import struct
+    return struct.unpack("f", struct.pack("f", x))[0]
+
+def _lit32(rng, lo, hi):
+    """a float32 in [lo, hi) whose shortest faithful decimal has 9 digits, as that decimal"""
+    for _ in range(400):
+        x = _f32(rng.uniform(lo, hi))
+        if lo <= x < hi and _f32(float("%.8g" % x)) != x:
+            return "%.9g" % x
+    return "%.9g" % _f32(rng.uniform(lo, hi))
+
+def _lit64(rng, lo, hi):
+    for _ in range(400):
+        x = rng.uniform(lo, hi)
+        if float("%.16g" % x) != x:
+            return "%.17g" % x
+    return "%.17g" % rng.uniform(lo, hi)
+
+def _aldor_lit(t):
+    """Aldor float literals need a digit on both sides of the point; negative ones are written with unary minus"""
+    neg = t.startswith("-")
+    t = t.lstrip("-")
+    if "e" in t:
+        m, e = t.split("e")
+        if "." not in m: m += ".0"
+        t = "%se%d" % (m, int(e))
+    elif "." not in t:
+        t += ".0"
+    return ("(- %s)" % t) if neg else t
+
+RANGES = ((0.1, 0.125), (1000.0, 1024.0), (10.0, 16.0), (1.0e6, 1048576.0), (1.0, 2.0), (0.0078125, 0.01), (65536.0, 99999.0))
+
+def float_const_program(rng, n_each=16, doubles=True, singles=True):
+    L = [FLOAT_HEAD]
+    k = 0
+    def emit(kind, expr):
+        nonlocal k
+        L.append('%s("%s%d", %s);' % ("bs" if kind == "s" else "bd", kind, k, expr)); k += 1
+    short = lambda: _aldor_lit("%g" % (rng.randint(1, 99) / rng.choice((10.0, 100.0, 8.0, 3.0 * 10))))
+    for kind, lit, on in (("s", _lit32, singles), ("d", _lit64, doubles)):
+        if not on: continue
+        for i in range(n_each):
+            lo, hi = RANGES[(i + rng.randint(0, 6)) % len(RANGES)]
+            r = rng.random()
+            a = _aldor_lit(lit(rng, lo, hi))
+            if r < 0.40: emit(kind, a)
+            elif r < 0.50: emit(kind, "(- %s)" % a)
+            elif r < 0.62: emit(kind, "%s * %s" % (short(), short()))
+            elif r < 0.74: emit(kind, "%s / %s" % (short(), short()))
+            elif r < 0.84: emit(kind, "%s + %s" % (a, short()))
+            elif r < 0.92: emit(kind, "%s - %s" % (a, _aldor_lit(lit(rng, lo, hi))))
+            else: emit(kind, "(%s * %s) / %s" % (short(), a, short()))
+        # near powers of two, extremes, subnormals, conversions (signed zeros and non-finite constants have their own
+        # pinned reproducers, corpus/routes/float_const_text.as and float_neg_zero.as: a C file that does not compile
+        # would hide every digit of this one)
+        if kind == "s":
+            for e in ("1.00000012", "0.99999994", "2.00000024", "16777217.0", "0.50000006", "3.40282347e38", "1.17549435e-38",
+                      "1.0e-40", "1.4e-45", "7.0e-46", "0.0",
+                      "single(%s)" % _aldor_lit(_lit64(rng, 0.1, 0.125)), "single(%s)" % _aldor_lit(_lit64(rng, 1000.0, 1024.0)),
+                      "single(1.0e-46)", "single(3.4028234e38)"):
+                emit("s", e)
+        else:
+            for e in ("1.0000000000000002", "0.99999999999999989", "4503599627370497.0", "9007199254740993.0",
+                      "1.7976931348623157e308", "2.2250738585072014e-308", "1.0e-310", "4.9e-324", "2.0e-324", "0.0",
+                      "(%s)::DoubleFloat" % _aldor_lit(_lit32(rng, 0.1, 0.125)), "(%s)::DoubleFloat" % _aldor_lit(_lit32(rng, 1000.0, 1024.0))):
+                emit("d", e)
+    return "\n".join(L) + "\n"
+
+
 # ------------------------------------------------------------------------------ the part
-def plan(ctx, pinned, corpus, gen):
+def plan(ctx, pinned, corpus, gen, fgen=()):
     """[(name, text, q, origin, model)] in the order the results are examined"""
     thorough = ctx.tier == "thorough"
     units = []
@@ -316,17 +433,28 @@ def plan(ctx, pinned, corpus, gen):
     for i, (name, text) in enumerate(corpus):
         if thorough:
             lv = QS
-        else:
-            # every program at -Q0 and -Q2 and at two of the other levels, rotating with program and seed, so
-            # that each run covers every level and five seeds cover every (program, level)
+        elif name.startswith("routes_"):
+            # the programs written to stress the routes: -Q0, -Q2 and two of the other levels, rotating with program
+            # and seed, so that each run covers every level and five seeds cover every (program, level)
             a = extra[(i + ctx.seed) % 4]; b = extra[(i + ctx.seed + 1 + (i // 4) % 3) % 4]
             lv = tuple(sorted({0, 2, a, b}))
+        else:
+            # the rest of the shared corpus (other builders' programs): one unoptimised and one optimised level per
+            # run, rotating; a third of them also at a high level
+            lv = {(0, 1)[(i + ctx.seed) % 2], (2, 3)[(i // 2 + ctx.seed) % 2]}
+            if (i + ctx.seed) % 3 == 0: lv.add((5, 9)[(i // 3 + ctx.seed) % 2])
+            lv = tuple(sorted(lv))
         for q in lv:
             units.append((name, text, q, "corpus", None))
     for i, (name, text, m) in enumerate(gen):
-        lv = QS if thorough else tuple(sorted({0, 2, extra[(i + ctx.seed) % 4]}))
+        lv = QS if thorough else tuple(sorted({(0, 1)[(i + ctx.seed) % 2], (2, 3, 5, 9)[(i + ctx.seed) % 4]}))
         for q in lv:
             units.append((name, text, q, "generated", m))
+    for i, (name, text) in enumerate(fgen):
+        # folded constants only exist from -Q2 on; -Q0 is the unfolded reference
+        lv = QS if thorough else tuple(sorted({0, 2, extra[(i + ctx.seed) % 4], extra[(i + ctx.seed + 2) % 4]}))
+        for q in lv:
+            units.append((name, text, q, "floatgen", None))
     return units
 
 
@@ -335,12 +463,15 @@ def run_part(ctx, build):
         build.build_runtime()
     thorough = ctx.tier == "thorough"
     timeout = 300 if thorough else 100
-    budget_s = None if thorough else float(os.environ.get("VERIF_ROUTES_BUDGET", "210"))
+    budget_s = None if thorough else float(os.environ.get("VERIF_ROUTES_BUDGET", "230"))
     pinned = load_dir(os.path.join(VERIF, "corpus", "routes"))
     corpus = load_dir(os.path.join(VERIF, "corpus", "programs"))
     gen, gen_note = generated(ctx, 200 if thorough else 24)
-    units = plan(ctx, pinned, corpus, gen)
-    stats = {"pinned": len(pinned), "corpus": len(corpus), "generated": len(gen), "units": len(units), "run": 0,
+    nf = 8 if thorough else 2
+    fgen = [("floatgen%02d" % i, float_const_program(ctx.rng, 12 if i % 2 else 16, doubles=(i % 3 != 1), singles=(i % 3 != 2)))
+            for i in range(nf)]
+    units = plan(ctx, pinned, corpus, gen, fgen)
+    stats = {"pinned": len(pinned), "corpus": len(corpus), "generated": len(gen), "floatgen": len(fgen), "units": len(units), "run": 0,
              "skipped_budget": 0, "agree": 0, "differ": 0, "nocompile_all": 0, "timeout_all": 0,
              "levels": {}, "classes": {}, "model_compared": 0, "model_differs": 0, "shrink_runs": 0,
              "compile_msgs_stripped": 0, "causes": {}, "compiler_crash_all": 0}
@@ -390,12 +521,17 @@ def run_part(ctx, build):
                 exp_out = m.get("stdout")
                 exp_cls = m.get("exit")
                 got_cls = klass(res["c"])
-                cls_ok = exp_cls in (None, got_cls) or (exp_cls in (0, "0") and got_cls == "ok") or \
-                    (isinstance(exp_cls, int) and exp_cls != 0 and got_cls == "fail")
-                if exp_out is not None and (exp_out != res["c"]["out"] or not cls_ok):
+                try:
+                    from vlib import miniald
+                    okm, why = miniald.agrees(m, {"rc": res["c"]["rc"], "stdout": res["c"]["out"], "stderr": res["c"]["stderr"],
+                                                  "compile_rc": 0})
+                except Exception:       # noqa: older miniald without agrees(): compare output and coarse class
+                    want = "ok" if exp_cls in (None, "", "ok", 0, "0") else "fail"
+                    okm, why = (exp_out is None or exp_out == res["c"]["out"]) and want == got_cls, "stdout or exit class"
+                if not okm:
                     stats["model_differs"] += 1
-                    ctx.corr_broken.append((NAME, "%s -Q%d (generated program; all three routes agree)\n%s" % (name, q, text),
-                                            "%s %r" % (got_cls, res["c"]["out"][:300]), "%s %r" % (exp_cls, exp_out[:300])))
+                    ctx.corr_broken.append((NAME, "%s -Q%d (generated program; all three routes agree; %s)\n%s" % (name, q, why, text),
+                                            "%s %r" % (got_cls, res["c"]["out"][:300]), "%s %r" % (exp_cls, (exp_out or "")[:300])))
             if len(ctx.cov["samples"]) < 14 and q in (2, 9) and origin != "pinned":
                 ctx.sample({"module": NAME, "program": name, "level": q, "classes": ks,
                             "stdout_lines": res["c"]["out"].count("\n")}, limit=14)
